@@ -150,6 +150,9 @@ def analyze(template: BoundTemplate, *, include_partials: bool) -> TemplateAnaly
     # and tags.
     seen: defaultdict[str, set[Optional[int]]] = defaultdict(set)
 
+    # Names of partial templates we're in the middle of visiting.
+    active: list[str] = []
+
     def _visit(
         node: Node,
         template_name: str,
@@ -205,12 +208,16 @@ def analyze(template: BoundTemplate, *, include_partials: bool) -> TemplateAnaly
             # If we've seen this partial before but with different arguments,
             # we might want to visit it again but only capture globals.
             _just_globals = partial_name in seen
-            if partial.key in seen[partial_name]:
+            if partial.key in seen[partial_name] and (
+                partial.scope == PartialScope.ISOLATED or partial_name in active
+            ):
                 # We've visited this partial template before with the same
-                # arguments.
+                # arguments. A partial that shares its parent's scope is visited
+                # again (for globals only) as the names in scope might differ.
                 return
 
             seen[partial_name].add(partial.key)
+            active.append(partial_name)
             partial_name = partial_name or template_name
 
             partial_scope = (
@@ -230,6 +237,7 @@ def analyze(template: BoundTemplate, *, include_partials: bool) -> TemplateAnaly
                 )
 
             partial_scope.pop()
+            active.pop()
         else:
             scope.push(set(node.block_scope()))
             for child in node.children(
@@ -270,6 +278,9 @@ async def analyze_async(
 
     # Names of partial templates that have already been analyzed.
     seen: defaultdict[str, set[Optional[int]]] = defaultdict(set)
+
+    # Names of partial templates we're in the middle of visiting.
+    active: list[str] = []
 
     async def _visit(
         node: Node,
@@ -326,12 +337,16 @@ async def analyze_async(
             # If we've seen this partial before but with different arguments,
             # we might want to visit it again but only capture globals.
             _just_globals = partial_name in seen
-            if partial.key in seen[partial_name]:
+            if partial.key in seen[partial_name] and (
+                partial.scope == PartialScope.ISOLATED or partial_name in active
+            ):
                 # We've visited this partial template before with the same
-                # arguments.
+                # arguments. A partial that shares its parent's scope is visited
+                # again (for globals only) as the names in scope might differ.
                 return
 
             seen[partial_name].add(partial.key)
+            active.append(partial_name)
             partial_name = partial_name or template_name
 
             partial_scope = (
@@ -351,6 +366,7 @@ async def analyze_async(
                 )
 
             partial_scope.pop()
+            active.pop()
         else:
             scope.push(set(node.block_scope()))
             for child in await node.children_async(
@@ -418,7 +434,11 @@ def _analyze_variables(
         variables.add(var)
 
         root = str(var.segments[0])
-        if root not in scope:
+        # The same reference can be reached more than once when a partial template is
+        # visited again from a different scope.
+        if root not in scope and not any(
+            v == var and v.span == var.span for v in globals[var]
+        ):
             globals.add(var)
 
     if child_scope := expression.scope():
